@@ -18,7 +18,7 @@ Section Sess.
   Notation cstate := (cstate Param Series LossV).
   Notation one_batch := (one_batch Param Series LossV model lossf loss_leb rounds0 propose draws agent_actions plan).
   Notation batches := (batches Param Series LossV model lossf loss_leb rounds0 propose draws agent_actions plan).
-  Notation calibrate := (calibrate Param Series LossV model lossf loss_leb rounds0 propose draws agent_actions plan).
+  Notation calibrate_pos := (calibrate_pos Param Series LossV model lossf loss_leb rounds0 propose draws agent_actions plan).
   Notation step := (step Param Series LossV model lossf loss_leb rounds0 propose draws agent_actions plan).
   Notation run := (run Param Series LossV model lossf loss_leb rounds0 propose draws agent_actions plan).
 
@@ -50,10 +50,10 @@ Section Sess.
 
   (* whatever happens inside calibrate() - normal return, early stop, or an exception in the model, the loss or a
      sampler - the session is ended: the scheduler is stopped and no agent thread is left *)
-  Theorem calibrate_leaves_idle n s s' e r : idle (sch _ _ _ (live _ _ _ s)) -> calibrate n s = (s', e, r) ->
+  Theorem calibrate_pos_leaves_idle n s s' e r : idle (sch _ _ _ (live _ _ _ s)) -> calibrate_pos n s = (s', e, r) ->
     idle (sch _ _ _ (live _ _ _ s')).
   Proof.
-    intros Hi H. unfold Calibrator.calibrate in H.
+    intros Hi H. unfold Calibrator.calibrate_pos in H.
     set (c1 := if Nat.eqb _ 0 then _ else _) in H.
     assert (Hc1 : sess (sch _ _ _ c1) = sess (sch _ _ _ (live _ _ _ s))).
     { unfold c1. destruct (Nat.eqb _ 0); [|reflexivity]. unfold set_samplers_seeds. cbn. destruct (sch _ _ _ (live _ _ _ s)); reflexivity. }
@@ -68,6 +68,14 @@ Section Sess.
       cbn [end_session] in H.
       destruct o1; injection H as <- <- <-; right; reflexivity.
   Qed.
+
+  Notation calibrate := (calibrate Param Series LossV model lossf loss_leb rounds0 propose draws agent_actions plan).
+  Theorem calibrate_leaves_idle n s s' e r : idle (sch _ _ _ (live _ _ _ s)) -> calibrate n s = (s', e, r) ->
+    idle (sch _ _ _ (live _ _ _ s')).
+  Proof. intros Hi H. rewrite (calibrate_unfold Param Series LossV) in H. destruct n; [|eapply calibrate_pos_leaves_idle; eauto].
+    destruct (calibrate_pos 0 s) as [[s1 e1] r1] eqn:E. pose proof (calibrate_pos_leaves_idle _ _ _ _ _ Hi E) as Hl.
+    apply (zero_ckpt_cases Param Series LossV) in H. destruct H as [(-> & _ & _) | [(_ & Hlive & _) | (_ & -> & _)]]; auto.
+    now rewrite Hlive. Qed.
 
   (* ... so a subsequent calibrate() can start its session *)
   Theorem idle_can_start sc : idle sc -> exists sc', start_session _ sc = inl sc'.
@@ -179,7 +187,7 @@ Section Split.
   Notation cstate := (cstate Param Series LossV).
   Notation one_batch := (one_batch Param Series LossV model lossf loss_leb rounds0 propose draws agent_actions plan).
   Notation batches := (batches Param Series LossV model lossf loss_leb rounds0 propose draws agent_actions plan).
-  Notation calibrate := (calibrate Param Series LossV model lossf loss_leb rounds0 propose draws agent_actions plan).
+  Notation calibrate_pos := (calibrate_pos Param Series LossV model lossf loss_leb rounds0 propose draws agent_actions plan).
   Notation steps := (steps Param Series LossV model lossf loss_leb rounds0 propose draws agent_actions plan).
 
   Lemma batches_split : forall a b s, batches (a + b) s =
@@ -201,12 +209,12 @@ Section Split.
 
   (* two consecutive calibrate() calls on a live object equal one call with the total number of batches
      (round-robin line-up, no convergence precision, first segment positive and completed without exception) *)
-  Theorem calibrate_split a b s s1 r1 l0 b0 :
+  Theorem calibrate_pos_split a b s s1 r1 l0 b0 :
     sch _ _ _ (live _ _ _ s) = RR LossV l0 b0 -> c_prec (cfg _ _ _ (live _ _ _ s)) = None -> 0 < a ->
-    calibrate a s = (s1, None, r1) ->
-    calibrate (a + b) s = calibrate b s1.
+    calibrate_pos a s = (s1, None, r1) ->
+    calibrate_pos (a + b) s = calibrate_pos b s1.
   Proof.
-    intros Hs Hp Ha H. unfold Calibrator.calibrate in *.
+    intros Hs Hp Ha H. unfold Calibrator.calibrate_pos in *.
     set (c1 := if Nat.eqb _ 0 then _ else _) in *.
     assert (Hs1 : exists l1, sch _ _ _ c1 = RR LossV l1 b0).
     { unfold c1. destruct (Nat.eqb _ 0); [|eexists; exact Hs]. unfold set_samplers_seeds. rewrite Hs. cbn. eexists; reflexivity. }
@@ -231,6 +239,16 @@ Section Split.
     - destruct (end_session _ _); discriminate.
   Qed.
 
+  Notation calibrate := (calibrate Param Series LossV model lossf loss_leb rounds0 propose draws agent_actions plan).
+  (* the same for calibrate() itself, both segments positive (the segments of the property are) *)
+  Theorem calibrate_split a b s s1 r1 l0 b0 :
+    sch _ _ _ (live _ _ _ s) = RR LossV l0 b0 -> c_prec (cfg _ _ _ (live _ _ _ s)) = None -> 0 < a -> 0 < b ->
+    calibrate a s = (s1, None, r1) ->
+    calibrate (a + b) s = calibrate b s1.
+  Proof. intros Hs Hp Ha Hb H. rewrite (calibrate_unfold Param Series LossV) in *.
+    destruct a as [|a]; [lia|]. destruct b as [|b]; [lia|]. cbn [Nat.add].
+    exact (calibrate_pos_split (S a) (S b) s s1 r1 l0 b0 Hs Hp Ha H). Qed.
+
   (* a checkpoint followed by a restore gives back the live state (round-robin; exact codecs: C04) *)
   Theorem restore_checkpoint_identity (s s1 : cstate) e1 (s2 : cstate) e2 l b :
     sch _ _ _ (live _ _ _ s) = RR LossV l b ->
@@ -251,14 +269,23 @@ Section Split.
     destruct (one_batch (mkSt _ _ _ c d)) as [s2 o2] eqn:E. destruct (one_batch_disk_irrelevant _ _ d' _ _ E) as [d2' E'].
     rewrite E'. destruct o2; try (injection H as <- <-; eexists; reflexivity).
     destruct s2 as [c2 d2]. cbn in *. eapply IH; eauto. Qed.
-  Theorem calibrate_disk_irrelevant n c d d' s1 e r : calibrate n (mkSt _ _ _ c d) = (s1, e, r) ->
-    exists d1', calibrate n (mkSt _ _ _ c d') = (mkSt _ _ _ (live _ _ _ s1) d1', e, r).
-  Proof. unfold Calibrator.calibrate. cbn [live disk]. intros H.
+  Theorem calibrate_pos_disk_irrelevant n c d d' s1 e r : calibrate_pos n (mkSt _ _ _ c d) = (s1, e, r) ->
+    exists d1', calibrate_pos n (mkSt _ _ _ c d') = (mkSt _ _ _ (live _ _ _ s1) d1', e, r).
+  Proof. unfold Calibrator.calibrate_pos. cbn [live disk]. intros H.
     set (c1 := if Nat.eqb _ 0 then _ else _) in *.
     destruct (start_session _ _) as [sc|e0]; [|injection H as <- <- <-; eexists; reflexivity].
     destruct (batches n (mkSt _ _ _ (set_sch _ _ _ c1 sc) d)) as [s2 o2] eqn:Hb.
     destruct (batches_disk_irrelevant _ _ _ d' _ _ Hb) as [d2' Hb']. rewrite Hb'. cbn [live disk].
     destruct o2; destruct (end_session _ _); injection H as <- <- <-; eexists; reflexivity. Qed.
+
+  Theorem calibrate_disk_irrelevant n c d d' s1 e r : calibrate n (mkSt _ _ _ c d) = (s1, e, r) ->
+    exists d1', calibrate n (mkSt _ _ _ c d') = (mkSt _ _ _ (live _ _ _ s1) d1', e, r).
+  Proof. intros H. rewrite (calibrate_unfold Param Series LossV) in *. destruct n as [|n]; [|eapply calibrate_pos_disk_irrelevant; eauto].
+    destruct (calibrate_pos 0 (mkSt _ _ _ c d)) as [[s0 e0] r0] eqn:E.
+    destruct (calibrate_pos_disk_irrelevant 0 c d d' _ _ _ E) as [d0' E']. rewrite E'.
+    unfold zero_ckpt in *. cbn [live]. destruct e0; [injection H as <- <- <-; eexists; reflexivity|].
+    destruct (c_saving _); [|injection H as <- <- <-; eexists; reflexivity].
+    destruct (save _ _ _ (live _ _ _ s0)); injection H as <- <- <-; eexists; reflexivity. Qed.
 
   (* C05: stopping after a completed segment, checkpointing, restoring and continuing equals continuing on the live
      object, hence (calibrate_split) equals the uninterrupted run *)
